@@ -185,7 +185,8 @@ def spec_find(runs, d, rq):
 
 
 def spec_sorted(runs, d, day=None):
-    rs = [r for r in runs if r.d == d and (day is None or r.stamp[:8] == day)]
+    """the runs of d (of that day) that have a status, most recently started first (a run without status is not listed)"""
+    rs = [r for r in runs if r.d == d and r.sts and (day is None or r.stamp[:8] == day)]
     return sorted(rs, key=lambda r: r.stamp, reverse=True)
 
 
@@ -194,13 +195,11 @@ def spec_latest(runs, d, day=None):
     if not rs:
         return {"c": 1}
     r = rs[0]
-    if not r.sts:
-        return {"c": 2}
     return {"c": 0, "r": r.sts[-1][0], "t": r.sts[-1][1]}
 
 
 def spec_recent(runs, d, n):
-    return [{"c": 0, "r": r.sts[-1][0], "t": r.sts[-1][1]} for r in spec_sorted(runs, d)[:n] if r.sts]
+    return [{"c": 0, "r": r.sts[-1][0], "t": r.sts[-1][1]} for r in spec_sorted(runs, d)[:n]]
 
 
 def norm_ans(a):
